@@ -116,6 +116,19 @@ theorem rect_as_path (x y w h rx0 ry0 : α) :
     Spec.interp (ShapeCmds.rectCmds x y w h (Spec.resolveRadii w h rx0 ry0).1 (Spec.resolveRadii w h rx0 ry0).2)
       = some (Spec.rectOutline x y w h rx0 ry0) := ShapeCmds.rect_interp x y w h rx0 ry0
 
+/-- C09 (basic shapes, radii as written): `from_element` reads the rect's attributes into the dataclass so that its outline is
+    the one SVG 1.1 §9.2 gives for the attributes — a radius that is not given is copied from the other one, and two given radii
+    of which one is zero mean square corners (`Spec.rectOutlineAttr`; before 8729e23 an explicit zero was copied over too) -/
+theorem rect_from_attributes (x y w h : α) (rx? ry? : Option α) :
+    Spec.rectOutline x y w h (ShapeCmds.explicitZeroRadii rx?.isSome ry?.isSome (rx?.getD 0) (ry?.getD 0)).1
+        (ShapeCmds.explicitZeroRadii rx?.isSome ry?.isSome (rx?.getD 0) (ry?.getD 0)).2
+      = Spec.rectOutlineAttr x y w h rx? ry? := ShapeCmds.rect_from_attributes x y w h rx? ry?
+
+example : Spec.rectOutlineAttr (0 : ℚ) 0 80 60 (some 30) (some 0) = Spec.rectOutline 0 0 80 60 0 0 := by
+  simp [Spec.rectOutlineAttr, Spec.givenRadii]
+example : Spec.rectOutlineAttr (0 : ℚ) 0 80 60 (some 30) none = Spec.rectOutline 0 0 80 60 30 30 := by
+  simp [Spec.rectOutlineAttr, Spec.givenRadii]
+
 /-- any other rewrite built on the walk inherits the result as soon as its callback is sound command by command -/
 theorem sound_callback_preserves_curve (cb : Callback α) (hcb : PathSim.CbSound cb) (cmds out : List (Cmd α))
     (segs : List (Spec.Seg α)) (h : walk cb cmds = .ok out) (hi : Spec.interp cmds = some segs) :
